@@ -51,6 +51,11 @@ def _closure(modules):
     return set(seen.values())
 
 
+def _driver_imports():
+    src = open(os.path.join(LEAN, "Driver.lean")).read()
+    return sorted(set(re.findall(r"^import\s+(ForsysModel[\w.]*)", src, flags=re.M)))
+
+
 def lake(args, timeout=3000):
     """run lake under an exclusive lock (several checks may run in parallel)"""
     os.makedirs(os.path.join(LEAN, ".lake"), exist_ok=True)
@@ -130,7 +135,7 @@ class Check:
         self.pending = idx.get("pending", [])
         self.obligations = len(theorems) + len(self.pending)
         t = time.time()
-        targets = ["ForsysModel.Model", "ForsysModel.Driver"] + ([module] if module else [])
+        targets = ["ForsysModel.Model", "ForsysModel.Driver"] + _driver_imports() + ([module] if module else [])
         rc, out = lake(["build"] + targets)
         self.stages["build_s"] = round(time.time() - t, 2)
         if rc != 0:
